@@ -3,6 +3,7 @@ from harness.h_sim import G, R_TWO, R_THREE, META, FUNCTIONS
 
 PIN = {}
 ALG3 = ('queue', 'batch1', 'batch2')
+PIN_ROT = {'queue': 0, 'batch1': 1, 'batch2': 2}
 
 
 def twin(spec):
@@ -38,5 +39,22 @@ def shards(tier, prop):
         out.append(G('delay', [(0, 2), (1, 2), (1, 2), (0, 2), (0, 2), (0, 2), (0, 2), (0, 1)], props, alg='queue'))
         for honest in (True, False):
             out.append(G('adv', [(0, 1), (1, 1), (0, 2), (-1, 2), (-1, 2), (-1, 2), (0, 2), (0, 0)], props, honest=honest))
-    out.append(twin(out[0]))
+    if prop == 'C07':
+        out = [G('two', R_TWO, props, alg=a) for a in ALG3]
+    if prop in ('C05', 'C07', 'C08'):
+        timings = [[1, 2, 2, 1, 1], [0, 1, 2, 0, 1], [2, 2, 1, 1, 0]] if tier == 'quick' else \
+                  [[a, b, c, 1, 1] for a in (0, 1, 2) for b in (1, 2) for c in (1, 2)]
+        for alg in ALG3:
+            for tm in timings:
+                if tier == 'quick' and tm != timings[PIN_ROT[alg]]:
+                    continue        # quick: one timing per algorithm; these traced shards are bug-hunting only unless they exhaust
+                out.append({'module': 'harness.h_sim', 'fn': 'sizes', 'pin': {'alg': alg, 'timing': tm, 'props': props},
+                            'cond_timeout': 75 if tier == 'quick' else 3000, 'path_timeout': 90})
+    if prop == 'C05':
+        # machine shortage / ingest limit / simultaneous starts (concrete sizes, threshold not crossed)
+        for alg in ALG3:
+            out.append(G('two', [(0, 2), (1, 2), (1, 2), (0, 2), (0, 2), (1, 2), (1, 2), (5, 5)], props, alg=alg, machines=[10, 20], g1=2))
+            out.append(G('three', R_THREE, props, alg=alg, shape='join', machines=[10, 20], max_ingest=1))
+            out.append(G('three', R_THREE, props, alg=alg, shape='chain', max_ingest=2, ingest=[2, 1, 2]))
+    out.append(twin([o for o in out if o['fn'] == 'grid'][0]))
     return out
